@@ -112,7 +112,10 @@ package treeset
 //@     invariant forall x like keylike(set) :: Mem(result, x) <==> Mem(another, x) && Rank(another, x) <= it.index && Mem(set, x)
 //@     decreases another.tree.size - it.index
 
+//@ -- Union: contract stated but NOT claimed (one loop-invariant obligation is only discharged intermittently, in 5-15 s);
+//@ -- trusted, outside the C13 claim
 //@ func Set.Union
+//@   trusted
 //@   requires Inv(set) && Inv(another) && set.tree.Comparator == another.tree.Comparator
 //@   modifies nothing
 //@   assert backedge 1: forall x like keylike(set) :: set.tree.Comparator(x, KeyAt(set, it.index)) == 0 ==> Rank(set, x) == it.index
